@@ -147,4 +147,63 @@ macro "good_npm_all" : tactic => `(tactic| (
     l1_eval <;> good_npm))
 
 
+macro "good_cargo_fin" : tactic => `(tactic| first
+  | with_reducible exact goodOut_empty
+  | with_reducible exact goodOut_err
+  | ((with_reducible refine goodOut_newSpan sys4_cargo ?_ ?_ _ _ ?_ ?_) <;> first | exact ⟨rfl, rfl⟩ | tidy_close))
+
+macro "good_cargo" : tactic => `(tactic| first
+  | good_cargo_fin
+  | (split <;> good_cargo_fin)
+  | (split <;> split <;> good_cargo_fin))
+
+/-- The statement for one Cargo operator. -/
+def GoodCargo (op : Op) : Prop :=
+  ∀ (nums : List XR), TShape nums → ∀ (pre : List Ident), (pre ≠ [] → nums.length = 3 ∧ XR.x ∉ nums) →
+    GoodOut .cargo (opVersionToSpan (tokOfCargo op nums) (embedPartial .cargo ⟨nums, pre⟩))
+
+macro "good_cargo_all" : tactic => `(tactic| (
+  intro nums hs pre hpre
+  cases hs with
+  | n3 a b c ha hb hc =>
+    have ia := natCast_beq_inf a ha; have ja := value_inc_nat a ha; have ka := natCast_succ_ne_inf a ha; have ib := natCast_beq_inf b hb; have jb := value_inc_nat b hb; have kb := natCast_succ_ne_inf b hb; have ic := natCast_beq_inf c hc; have jc := value_inc_nat c hc; have kc := natCast_succ_ne_inf c hc
+    by_cases h0 : a = 0 <;> by_cases h1 : b = 0 <;> by_cases h2 : c = 0 <;> cases pre <;> simp only [tokOfCargo] <;> l1_eval <;> good_cargo
+  | nnx a b ha hb =>
+    have ia := natCast_beq_inf a ha; have ja := value_inc_nat a ha; have ka := natCast_succ_ne_inf a ha; have ib := natCast_beq_inf b hb; have jb := value_inc_nat b hb; have kb := natCast_succ_ne_inf b hb
+    have hp : pre = [] := pre_ne_nil_of hpre (by simp)
+    subst hp
+    by_cases h0 : a = 0 <;> by_cases h1 : b = 0 <;> simp only [tokOfCargo] <;> l1_eval <;> good_cargo
+  | n2 a b ha hb =>
+    have ia := natCast_beq_inf a ha; have ja := value_inc_nat a ha; have ka := natCast_succ_ne_inf a ha; have ib := natCast_beq_inf b hb; have jb := value_inc_nat b hb; have kb := natCast_succ_ne_inf b hb
+    have hp : pre = [] := pre_ne_nil_of hpre (by simp)
+    subst hp
+    by_cases h0 : a = 0 <;> by_cases h1 : b = 0 <;> simp only [tokOfCargo] <;> l1_eval <;> good_cargo
+  | nxx a ha =>
+    have ia := natCast_beq_inf a ha; have ja := value_inc_nat a ha; have ka := natCast_succ_ne_inf a ha
+    have hp : pre = [] := pre_ne_nil_of hpre (by simp)
+    subst hp
+    by_cases h0 : a = 0 <;> simp only [tokOfCargo] <;> l1_eval <;> good_cargo
+  | nx a ha =>
+    have ia := natCast_beq_inf a ha; have ja := value_inc_nat a ha; have ka := natCast_succ_ne_inf a ha
+    have hp : pre = [] := pre_ne_nil_of hpre (by simp)
+    subst hp
+    by_cases h0 : a = 0 <;> simp only [tokOfCargo] <;> l1_eval <;> good_cargo
+  | n1 a ha =>
+    have ia := natCast_beq_inf a ha; have ja := value_inc_nat a ha; have ka := natCast_succ_ne_inf a ha
+    have hp : pre = [] := pre_ne_nil_of hpre (by simp)
+    subst hp
+    by_cases h0 : a = 0 <;> simp only [tokOfCargo] <;> l1_eval <;> good_cargo
+  | x1 =>
+    have hp : pre = [] := pre_ne_nil_of hpre (by simp)
+    subst hp
+    simp only [tokOfCargo] <;> l1_eval <;> good_cargo
+  | xx =>
+    have hp : pre = [] := pre_ne_nil_of hpre (by simp)
+    subst hp
+    simp only [tokOfCargo] <;> l1_eval <;> good_cargo
+  | xxx =>
+    have hp : pre = [] := pre_ne_nil_of hpre (by simp)
+    subst hp
+    simp only [tokOfCargo] <;> l1_eval <;> good_cargo))
+
 end DepsDev.Proofs.C03
